@@ -1731,6 +1731,11 @@ pub fn run(prop: &str, tier: &str, seed: u64, outdir: &str) {
                 let id = out.next_id();
                 out.case(&format!("({} {} {})", prop, id, body), &j.class, || human);
             }
+            // an honest selection the library's prover refuses to serve is an outcome to report, not a case to drop
+            None if j.muts.is_empty() && j.craft.is_none() && (j.class.starts_with("honest") || j.class == "two-thresholds-one-attribute") => {
+                let id = out.next_id();
+                out.case(&format!("({} {} NB {})", prop, id, crate::sx::s(&j.class)), "honest-not-built", || json!({"class": j.class, "built": false}));
+            }
             None => out.bump(&format!("not-generated({})", j.class.split(':').next().unwrap_or(""))),
         }
     }
